@@ -115,6 +115,10 @@ func (s *Server) cmdSetHook(msg *Message) (
 		return NOMessage, d, errors.New("missing FENCE argument")
 	}
 	args.cmd = cmdlc
+	if args.usingLua() {
+		// the deferred Close above hands the pooled interpreters back
+		args.whereevals = detachWhereevals(args.whereevals)
+	}
 	cmsg := &Message{}
 	*cmsg = *msg
 	cmsg.Args = make([]string, len(commandvs))
